@@ -6,8 +6,8 @@ From Coq Require Import Extraction ExtrOcamlBasic NArith ZArith List String.
 From FitV Require Import Model.Values Model.Bytes Model.Base Model.Profile Model.Header Model.Components
   Model.Route Model.Encode Spec.Grammar Spec.RoundTrip Spec.EncLayout.
 From FitV Require Import Gen.RoutingData Gen.ProfileData.
-(* the record list Encode lays out (Spec/EncLayout.v) and the time side condition of the stream theorem
-   C06_roundtrip.  Proofs/StreamDenoteDefs.v is definitions only and imports Model and Spec files only: no
+(* the record list Encode lays out (Spec/EncLayout.v) and its well-formedness (stream_wf, a conclusion of
+   C06_encode_is_serialize).  Proofs/StreamDenoteDefs.v is definitions only and imports Model and Spec files only: no
    extraction input depends on a proof file, so a broken proof cannot break the driver build. *)
 From FitV Require Import Proofs.StreamDenoteDefs.
 
@@ -18,6 +18,6 @@ Extraction "fitmodel_enc.ml"
   Grammar.hdrsize Grammar.datasize Grammar.hdrcrc Grammar.filecrc Grammar.header_ok Grammar.trailer_ok
   RoundTrip.in_domain RoundTrip.wf_file RoundTrip.content_eq6 RoundTrip.content_eq7 RoundTrip.diff6 RoundTrip.diff7
   RoundTrip.norm_msg RoundTrip.trunc_msg RoundTrip.expected_msg
-  EncLayout.file_recs StreamDenoteDefs.no_time_quirk StreamDenoteDefs.stream_wf
+  EncLayout.file_recs StreamDenoteDefs.stream_wf
   Route.ft_entry Route.file_type RoutingData.file_types
   Z.add N.add Nat.add.
